@@ -202,7 +202,8 @@ fn extract_pseudo_header_order(frames: &[Http2Frame]) -> Vec<PseudoHeader> {
         .find(|f| f.frame_type == Http2FrameType::Headers && f.stream_id > 0);
 
     if let Some(frame) = headers_frame {
-        if let Ok(headers) = decode_headers(&frame.payload) {
+        let block = header_block(frame, frames);
+        if let Ok(headers) = decode_headers(&block) {
             return headers
                 .iter()
                 .filter(|h| h.name.starts_with(':'))
@@ -212,6 +213,47 @@ fn extract_pseudo_header_order(frames: &[Http2Frame]) -> Vec<PseudoHeader> {
     }
 
     Vec::new()
+}
+
+/// Assemble the header block that starts in `headers`: the HEADERS payload without its
+/// optional pad-length, priority fields and padding (RFC 7540 section 6.2), followed by the
+/// payloads of the CONTINUATION frames of the same stream up to END_HEADERS.
+fn header_block(headers: &Http2Frame, frames: &[Http2Frame]) -> Vec<u8> {
+    const END_HEADERS: u8 = 0x4;
+    const PADDED: u8 = 0x8;
+    const PRIORITY: u8 = 0x20;
+
+    let mut fragment: &[u8] = &headers.payload;
+    if headers.flags & PADDED != 0 {
+        let pad_len = fragment.first().copied().map_or(0, usize::from);
+        fragment = fragment.get(1..).unwrap_or(&[]);
+        fragment = fragment
+            .get(..fragment.len().saturating_sub(pad_len))
+            .unwrap_or(&[]);
+    }
+    if headers.flags & PRIORITY != 0 {
+        fragment = fragment.get(5..).unwrap_or(&[]);
+    }
+
+    let mut block = fragment.to_vec();
+    if headers.flags & END_HEADERS == 0 {
+        let following = frames
+            .iter()
+            .skip_while(|f| !std::ptr::eq(*f, headers))
+            .skip(1);
+        for frame in following {
+            if frame.frame_type != Http2FrameType::Continuation
+                || frame.stream_id != headers.stream_id
+            {
+                break;
+            }
+            block.extend_from_slice(&frame.payload);
+            if frame.flags & END_HEADERS != 0 {
+                break;
+            }
+        }
+    }
+    block
 }
 
 /// Decode HPACK-encoded headers
